@@ -200,3 +200,24 @@ func (u *Unit) evalFieldsEqual(e *SExpr, env *Env) Val {
 	}
 	return Val{T: and(cs...)}
 }
+
+// specPointerType resolves `T` or `pkg.T` in a contract to the Go type *T.
+func (u *Unit) specPointerType(e *SExpr, env *Env) types.Type {
+	var pkg *types.Package
+	name := ""
+	switch {
+	case e.Kind == "id":
+		pkg, name = u.pkgScope(env, ""), e.Name
+	case e.Kind == "field" && e.Args[0].Kind == "id":
+		pkg, name = u.pkgScope(env, e.Args[0].Name), e.Name
+	}
+	if pkg == nil {
+		u.specFail("cannot resolve type %s", e.String())
+	}
+	obj := pkg.Scope().Lookup(name)
+	tn, ok := obj.(*types.TypeName)
+	if !ok {
+		u.specFail("%s is not a type", e.String())
+	}
+	return types.NewPointer(tn.Type())
+}
